@@ -26,8 +26,8 @@
 const char *verif_property = "C03";
 const char *verif_class_names[] = { "A_died_during_handshake", "A_died_connected_idle", "A_died_with_requests_queued", "A_died_mid_request", "A_died_in_disconnect", "A_completed", "A_partial_send", "A_killed_inside_server_callback", "A_closed_asked_for_rerun",
 	"B_died_before_ready", "B_died_during_handshake", "B_died_while_client_waited_forever", "B_died_while_client_waited_finite", "B_killed_between_calls", "B_survived", "B_later_call_checked",
-	"B_shm_cleanup_checked", "B_listener_set_up_by_living_parent", "shm", "socket", NULL };
-enum { KA_HANDSHAKE, KA_IDLE, KA_QUEUED, KA_MID, KA_DISC, KA_DONE, KA_PARTIAL, KA_INCB, KA_RETRY, KB_NOTREADY, KB_HANDSHAKE, KB_FOREVER, KB_FINITE, KB_KILLED, KB_SURVIVED, KB_LATER, KB_CLEAN, KB_SPLIT, K_SHM, K_SOCK };
+	"B_shm_cleanup_checked", "B_listener_set_up_by_living_parent", "shm", "socket", "A_died_with_requests_queued_under_flow_control", NULL };
+enum { KA_HANDSHAKE, KA_IDLE, KA_QUEUED, KA_MID, KA_DISC, KA_DONE, KA_PARTIAL, KA_INCB, KA_RETRY, KB_NOTREADY, KB_HANDSHAKE, KB_FOREVER, KB_FINITE, KB_KILLED, KB_SURVIVED, KB_LATER, KB_CLEAN, KB_SPLIT, K_SHM, K_SOCK, KA_FCDEATH };
 const char *verif_rule =
 	"case = part (A client dies / B server dies), transport, script of the victim (A: answered requests, requests left queued, events, proper disconnect or not; B: which requests are answered), "
 	"crash point K = index of the libc call before which the victim stops (enumerated 0..N for fixed scripts, random otherwise) with optional partial send, server step choices (A) or client call "
@@ -145,7 +145,7 @@ static bool control_roundtrip(qb_ipcc_connection_t *ctl, const char *when)
 	return false;
 }
 
-static void part_a(struct verif_report *r, enum qb_ipc_type type, const ascript &sc, long K, int partial, bool lazy, int kill_in)
+static void part_a(struct verif_report *r, enum qb_ipc_type type, const ascript &sc, long K, int partial, bool lazy, int kill_in, int fc_at_death = 0)
 {
 	a_victim = 0; a_kill_in = kill_in; a_dead = false;	/* a_closed_retries is set by the caller */
 	DISP.clear(); JOBS.clear(); AC.clear();
@@ -176,7 +176,7 @@ static void part_a(struct verif_report *r, enum qb_ipc_type type, const ascript 
 	close(pfd[1]);
 	a_victim = pid;
 	fcntl(pfd[0], F_SETFL, O_NONBLOCK);
-	std::string rep; bool dead = false, seen_q = false; int status = 0;
+	std::string rep; bool dead = false, seen_q = false, fc_applied = false; int status = 0; unsigned fair = 0; double t_dead = 0;
 	double t0 = now_ms();
 	for (;;) {
 		char b[256]; ssize_t n = read(pfd[0], b, sizeof b);
@@ -184,8 +184,17 @@ static void part_a(struct verif_report *r, enum qb_ipc_type type, const ascript 
 		if (rep.find("S\n") != std::string::npos) seen_q = true;
 		if (a_dead) dead = true;
 		if (!dead && waitpid(pid, &status, WNOHANG) == pid) dead = true;
+		if (dead && fc_at_death && !fc_applied) {
+			/* the application has switched request processing off (flow control) by the time the server gets to look at the dead client's connection */
+			fc_applied = true;
+			qb_ipcs_request_rate_limit(S, fc_at_death == 2 ? QB_IPCS_RATE_OFF_2 : QB_IPCS_RATE_OFF);
+			VLOG(r, "the client is dead; the application sets the request rate limit to OFF%s before the server's next turn\n", fc_at_death == 2 ? "_2" : "");
+		}
 		bool hold = lazy && seen_q && !dead;		/* leave the victim's requests queued until it is dead */
-		int did = hold ? 0 : server_step(vr_u8(&V));
+		/* with request processing switched off a descriptor with queued requests stays ready without making progress: every ready descriptor gets its turn, as in a real loop */
+		int did = hold ? 0 : server_step(fc_applied ? fair++ : vr_u8(&V));
+		if (fc_applied && !t_dead) t_dead = now_ms();
+		if (fc_applied && did && now_ms() - t_dead > 4000) { VLOG(r, "the server's loop is still busy 4 s after the client's death\n"); break; }
 		if (!did) {
 			if (dead) { n = read(pfd[0], b, sizeof b); if (n > 0) rep.append(b, (size_t)n); break; }
 			msleep(1);
@@ -194,11 +203,13 @@ static void part_a(struct verif_report *r, enum qb_ipc_type type, const ascript 
 	}
 	close(pfd[0]);
 	if (r->fail) return;
-	server_drain(3000);
+	if (fc_applied) { for (unsigned i = 0; i < 3000 && server_step(i); i++) ; }
+	else server_drain(3000);
 	/* where did it die? */
 	bool completed = rep.find("N ") != std::string::npos;
 	size_t kp = rep.find("K ");
 	if (a_dead) { VCLASS(r, KA_INCB); r->nontrivial = 1; }
+	if (fc_applied && lazy && sc.n_queued && rep.find("Q\n") != std::string::npos) VCLASS(r, KA_FCDEATH);
 	std::string where = a_dead ? std::string("killed inside the server's ") + (kill_in == 1 ? "accept" : kill_in == 2 ? "created" : "msg_process") + " callback" : completed ? "completed (" + rep.substr(rep.find("N "), rep.find('\n', rep.find("N ")) - rep.find("N ")) + " calls)" : kp != std::string::npos ? rep.substr(kp, rep.find('\n', kp) - kp) : "died (no report)";
 	VLOG(r, "victim: %s; phases seen: %s%s%s%s\n", where.c_str(), rep.find("C\n") != std::string::npos ? "connected " : "", rep.find("S\n") != std::string::npos ? "sync-done " : "",
 	     rep.find("Q\n") != std::string::npos ? "queued " : "", rep.find("D\n") != std::string::npos ? "disconnecting" : "");
@@ -227,6 +238,7 @@ static void part_a(struct verif_report *r, enum qb_ipc_type type, const ascript 
 	if (shm != base_shm) { std::string first; count_shm_entries(&first); VFAIL(r, "shm-residue", "%d entries in /dev/shm after the client died, %d before it came (e.g. %s) [victim %s]", shm, base_shm, first.c_str(), where.c_str()); return; }
 	struct qb_ipcs_stats st; qb_ipcs_stats_get(S, &st, QB_FALSE);
 	if (st.active_connections != 1) { VFAIL(r, "stats-active", "qb_ipcs_stats_get reports %u active connections, only the control client is connected [victim %s]", st.active_connections, where.c_str()); return; }
+	if (fc_applied) qb_ipcs_request_rate_limit(S, QB_IPCS_RATE_NORMAL);
 	if (!control_roundtrip(ctl, "after the victim died")) return;
 	qb_ipcc_disconnect(ctl);
 	server_drain(500);
@@ -430,12 +442,18 @@ static const uint8_t BSCRIPT[3][32] = {
 extern "C" size_t verif_enum_count(const char *tier)
 {
 	(void)tier;	/* both tiers enumerate every crash point: part A 2 transports x 4 scripts x K; part B 2 transports x 3 scripts x K */
-	return 2 * 4 * ENUM_KA + 2 * 3 * ENUM_KB + 2 * 3 * 2 + 2 * HS_REQ_PREFIXES + 2 * HS_RSP_PREFIXES + 2 * 3;
+	return 2 * 4 * ENUM_KA + 2 * 3 * ENUM_KB + 2 * 3 * 2 + 2 * HS_REQ_PREFIXES + 2 * HS_RSP_PREFIXES + 2 * 3 + 2 * ENUM_KA;
 }
 extern "C" size_t verif_enum_case(size_t idx, uint8_t *buf, size_t cap)
 {
 	if (cap < 40) return 0;
 	memset(buf, 0, 40);
+	size_t base_n = 2 * 4 * ENUM_KA + 2 * 3 * ENUM_KB + 2 * 3 * 2 + 2 * HS_REQ_PREFIXES + 2 * HS_RSP_PREFIXES + 2 * 3;
+	if (idx >= base_n) {	/* the client with three requests left queued dies at every K while the application has request processing switched off when the server looks next */
+		idx -= base_n;
+		buf[0] = 0xA0; buf[1] = idx / ENUM_KA; buf[2] = 3; uint16_t k = idx % ENUM_KA; memcpy(buf + 3, &k, 2); buf[7] = 1 + (idx % 2);
+		return 8;
+	}
 	if (idx < 2 * 4 * ENUM_KA) { buf[0] = 0xA0; buf[1] = (idx / ENUM_KA) / 4; buf[2] = (idx / ENUM_KA) % 4; uint16_t k = idx % ENUM_KA; memcpy(buf + 3, &k, 2); return 8; }
 	idx -= 2 * 4 * ENUM_KA;
 	if (idx >= 2 * 3 * ENUM_KB + 12) {	/* death after a prefix of the handshake message: the client's request (every prefix), the server's response (sampled) */
@@ -476,7 +494,7 @@ extern "C" int verif_case(const uint8_t *data, size_t size, struct verif_report 
 	if (first == 0xA0 || first == 0xB0) {		/* enumerated */
 		enum qb_ipc_type type = vr_u8(&V) ? QB_IPC_SHM : QB_IPC_SOCKET;
 		unsigned siraw = vr_u8(&V), si = siraw % 4; long K = vr_u16(&V); bool split = first == 0xB0 && (siraw & 0x80); int kin = first == 0xA0 ? (int)(vr_u8(&V) % 4) : 0;
-		int partial = -1;
+		int partial = -1, fcd = first == 0xA0 && size >= 8 ? data[7] % 3 : 0;
 		if (K == 0xfffe) {	/* stop after a prefix of the first message sent */
 			K = -2;
 			if (first == 0xA0) partial = (int)vr_u8(&V);
@@ -484,7 +502,7 @@ extern "C" int verif_case(const uint8_t *data, size_t size, struct verif_report 
 		}
 		VCLASS(r, type == QB_IPC_SHM ? K_SHM : K_SOCK);
 		vop(r, first, type, si); vop(r, K, 0, 0);
-		if (first == 0xA0) { VLOG(r, "part A (client dies), %s, fixed script %u, crash point %ld\n", type == QB_IPC_SHM ? "shm" : "socket", si, K); a_closed_retries = si == 2 ? 2 : si == 1 ? 1 : 0; part_a(r, type, FIXED[si], K, partial, si == 3, kin); }
+		if (first == 0xA0) { VLOG(r, "part A (client dies), %s, fixed script %u, crash point %ld\n", type == QB_IPC_SHM ? "shm" : "socket", si, K); a_closed_retries = si == 2 ? 2 : si == 1 ? 1 : 0; part_a(r, type, FIXED[si], K, partial, si == 3, kin, fcd); }
 		else { VLOG(r, "part B (server dies), %s, crash point %ld\n", type == QB_IPC_SHM ? "shm" : "socket", K); part_b(r, type, K, partial, split); }
 		return 0;
 	}
@@ -503,8 +521,9 @@ extern "C" int verif_case(const uint8_t *data, size_t size, struct verif_report 
 		VLOG(r, "part A (client dies), %s: %d answered request(s)%s, %d queued, %s, crash point %ld%s%s\n", type == QB_IPC_SHM ? "shm" : "socket", sc.n_sync, sc.events ? " (first asks for events)" : "",
 		     sc.n_queued, sc.proper_disconnect ? "disconnects" : "just exits", K, partial >= 0 ? " with a partial send" : "", lazy ? "; the server leaves queued requests alone until the client is dead" : "");
 		a_closed_retries = vr_u8(&V) % 3 == 0 ? 1 + (int)(vr_u8(&V) % 3) : 0;
-		vop(r, kin, a_closed_retries, 0);
-		part_a(r, type, sc, K, partial, lazy, kin);
+		int fcd = vr_u8(&V) % 3 == 0 ? 1 + (int)(vr_u8(&V) % 2) : 0;
+		vop(r, kin, a_closed_retries, fcd);
+		part_a(r, type, sc, K, partial, lazy, kin, fcd);
 	} else {
 		vop(r, 0xB, type, K); vop(r, partial, 0, 0);
 		VLOG(r, "part B (server dies), %s, crash point %ld%s\n", type == QB_IPC_SHM ? "shm" : "socket", K, partial >= 0 ? " with a partial send" : "");
